@@ -81,6 +81,19 @@ def one(args):
     finally:
         shutil.rmtree(d, ignore_errors=True)
 
+def crashed(rc, se):
+    """the process died (signal, Go panic) instead of ending with a status of its own choosing"""
+    return rc < 0 or b'panic:' in se or b'goroutine 1 [' in se
+
+def runtime_failure(rc, se, net):
+    """an ACCEPTED job that failed while running: it reached the network (the listener is no Atlas) or the operating system refused to open
+    its input (the file argument given as the empty string). Recognised by what happened, not by the wording of the tool's messages."""
+    return rc != 0 and not crashed(rc, se) and (net > 0 or b'no such file or directory' in se)
+
+def rejected(rc, se, net):
+    """a rejection: a non-zero status (any: the property asks for non-zero, not for 1) that is neither a crash nor a failure at run time"""
+    return rc != 0 and not crashed(rc, se) and not runtime_failure(rc, se, net)
+
 def one_raw(args):
     """raw value vector: string-valued flags absent / empty / given, dates absent / 0 / negative / positive"""
     idx, v, port = args
@@ -149,15 +162,15 @@ def run(chk, replay=None):
         chk.count(); chk.traces += 1; chk.nontriv(('raw', v))
         net = lst.hits.get('run%d' % idx, 0)
         mv, me = m.split()
-        validation_error = rc == 1 and se.startswith(b'Error:')
-        runtime_error = rc == 1 and not validation_error
+        validation_error = rejected(rc, se, net)
+        runtime_error = runtime_failure(rc, se, net)
         effects = set()
         if 'out.log' in files or any(x.startswith('out.log.') for x in files): effects.add('out')
         if 'key.file' in files: effects.add('key')
         if net: effects.add('net')
         got = 'reject' if validation_error else 'accept'
         case = {'argv': argv, 'stdin': 'pipe' if v[1] == '1' else 'none', 'key_pair_in_environment': v[12] == '1', 'rc': rc, 'stderr': se.decode('utf-8', 'replace'), 'files': files, 'network_attempts': net}
-        if rc not in (0, 1): chk.violate('unexpected exit status (crash?)', case, tags=['status', 'values'])
+        if crashed(rc, se): chk.violate('the command crashed', case, tags=['status', 'values'])
         # an accepted job may still fail at run time (the empty file name cannot be opened, the listener is no Atlas): then its effects are a prefix of the model's
         mset = set(me.split(',')) - {'read', '-'}
         if got != mv.split(':')[0] or (got == 'reject' and effects) or (got == 'accept' and not runtime_error and effects != mset) or (got == 'accept' and not effects <= mset):
@@ -175,7 +188,7 @@ def run(chk, replay=None):
         net = lst.hits.get('run%d' % idx, 0)
         effects = sorted(({'out'} if ('out.log' in files or any(x.startswith('out.log.') for x in files)) else set()) | ({'key'} if 'key.file' in files else set()) | ({'net'} if net else set()))
         case = {'flags': [n for n in NAMES if f[n]], 'date_value': 'negative', 'rc': rc, 'stderr': se.decode('utf-8', 'replace'), 'files': files, 'network_attempts': net}
-        if not (rc == 1 and se.startswith(b'Error:')): chk.violate('a start / end date given alone (negative value) was not rejected', case, tags=['accepted', 'negdates'])
+        if not rejected(rc, se, net): chk.violate('a start / end date given alone (negative value) was not rejected', case, tags=['accepted', 'negdates'])
         if effects: chk.violate('rejection decided from the flags had side effects: %s' % effects, case, tags=['sideeffect', 'negdates'] + effects)
     chk.streams.append({'stream': 'combinations that only the date-pair rule rejects, with negative date values', 'cases': len(lone)})
     for (idx, rc, so, se, files), (i, bits) in zip(results_e, file_combos):
@@ -183,10 +196,10 @@ def run(chk, replay=None):
         chk.count(); chk.nontriv((bits, 'emptyfile'))
         exp = rule(f)
         net = lst.hits.get('run%d' % idx, 0)
-        validation_error = rc == 1 and se.startswith(b'Error:')
+        validation_error = rejected(rc, se, net)
         effects = sorted(({'out'} if ('out.log' in files or any(x.startswith('out.log.') for x in files)) else set()) | ({'key'} if 'key.file' in files else set()) | ({'net'} if net else set()))
         case = {'flags': [n for n in NAMES if f[n]], 'file_argument': '(empty string)', 'rc': rc, 'stderr': se.decode('utf-8', 'replace'), 'files': files, 'network_attempts': net}
-        if rc not in (0, 1): chk.violate('unexpected exit status (crash?)', case, tags=['status', 'emptyfile'])
+        if crashed(rc, se): chk.violate('the command crashed', case, tags=['status', 'emptyfile'])
         elif exp is None:
             if not validation_error: chk.violate('ill-defined combination accepted (file argument given as the empty string)', case, tags=['accepted', 'emptyfile'])
             if effects: chk.violate('rejection decided from the flags had side effects: %s' % effects, case, tags=['sideeffect', 'emptyfile'] + effects)
@@ -202,18 +215,18 @@ def run(chk, replay=None):
         net = lst.hits.get('run%d' % idx, 0)
         mv, me = m.split()
         # classify what the CLI did
-        validation_error = rc == 1 and se.startswith(b'Error:') and not (b'Error downloading' in se or b'Error processing' in se or b'Error opening' in se or b'Error reading' in se)
+        validation_error = rejected(rc, se, net)
         effects = set()
         if 'out.log' in files or any(x.startswith('out.log.') for x in files): effects.add('out')
         if 'key.file' in files: effects.add('key')
         if net: effects.add('net')
-        accepted = not validation_error and rc in (0, 1) and (rc == 0 or b'Error downloading Atlas logs' in se)
+        accepted = not crashed(rc, se) and (rc == 0 or runtime_failure(rc, se, net))
         case = {'flags': [n for n in NAMES if f[n]], 'stdin_kind': ('regular file' if idx >= 100000 else 'pipe' if f['stdin'] else 'none'), 'rc': rc, 'stderr': se.decode('utf-8', 'replace'), 'files': files, 'network_attempts': net}
         got = ('accept' if accepted else 'reject')
         if got != mv.split(':')[0] or (accepted and (effects - {'read'}) != (set(me.split(',')) - {'read', '-'})) or (not accepted and effects):
             chk.disagree('verdict and side effects', case, (got, sorted(effects)), m)
-        if rc not in (0, 1):
-            chk.violate('unexpected exit status (crash?)', case, tags=['status'])
+        if crashed(rc, se):
+            chk.violate('the command crashed', case, tags=['status'])
         elif exp is None:
             if accepted: chk.violate('ill-defined combination accepted', case, tags=['accepted'])
             elif not se.strip(): chk.violate('rejection without an explanatory message', case, tags=['message'])
